@@ -254,7 +254,9 @@ namespace awkward {
     }
 
     if (partitions.empty()) {
-      partitions.push_back(partitions_[0].get()->getitem_nothing());
+      // an empty array of the same type (getitem_nothing() is an empty array of the
+      // *items'* type: one list level less)
+      partitions.push_back(partitions_[0].get()->getitem_range_nowrap(0, 0));
       stops.push_back(0);
     }
     return std::make_shared<IrregularlyPartitionedArray>(partitions, stops);
